@@ -12,7 +12,10 @@ use std::path::{Path, PathBuf};
 
 pub const SHARDS: u64 = 16;
 pub const FP_CAP_PER_SHARD: usize = 1_500_000;
-pub const VERIF_DIR: &str = "/verif";
+/// root of the verification tree: /verif, or $VERIF_ROOT (development copies only)
+pub fn verif_dir() -> String {
+    std::env::var("VERIF_ROOT").unwrap_or_else(|_| "/verif".to_string())
+}
 
 #[derive(Clone, Copy, PartialEq, Eq, Debug)]
 pub enum Tier {
@@ -347,7 +350,7 @@ pub struct Known {
 
 impl Known {
     pub fn load() -> Known {
-        let path = Path::new(VERIF_DIR).join("known_findings.json");
+        let path = Path::new(&verif_dir()).join("known_findings.json");
         let mut findings = Vec::new();
         if let Ok(s) = std::fs::read_to_string(&path) {
             if let Ok(v) = serde_json::from_str::<J>(&s) {
@@ -607,7 +610,7 @@ pub fn run_shard(
 // shard result (de)serialisation
 
 pub fn shard_dir(prop: &str, tier: Tier) -> PathBuf {
-    Path::new(VERIF_DIR).join("work").join(format!("{}-{}", prop, tier.name()))
+    Path::new(&verif_dir()).join("work").join(format!("{}-{}", prop, tier.name()))
 }
 
 pub fn write_shard_result(dir: &Path, shard: u64, ctx: &Ctx, res: &ShardResult) {
@@ -654,7 +657,7 @@ pub fn current_tier() -> Tier {
 }
 
 pub fn write_replay(prop: &str, sub: &str, input: &[u8], f: &Failure) -> PathBuf {
-    let dir = Path::new(VERIF_DIR).join("replays").join(prop);
+    let dir = Path::new(&verif_dir()).join("replays").join(prop);
     let _ = std::fs::create_dir_all(&dir);
     let fpr = crate::tape::fp_mix(crate::tape::fp64(input), crate::tape::fp64(f.sig.as_bytes()));
     let path = dir.join(format!("{}-{:016x}.json", sub, fpr));
